@@ -106,4 +106,25 @@ def specConsts (t : Nat) : Option Obs := (ntDef? t).map (fun T => [0, (T.max : I
 
 def modelCnConst (i : Nat) : Option Obs := (Gen.controllerNumberValues[i]?).map (fun v => [(v : Int)])
 
+/-- the controller numbers MIDI 1.0 assigns to the (N)RPN-related names (C09 `controller_constants`) -/
+def standardCn : List (String × Nat) :=
+  [("DATA_ENTRY_MSB", 6), ("DATA_ENTRY_MSB_LSB", 38), ("DATA_INCREMENT", 96), ("DATA_DECREMENT", 97),
+   ("NON_REGISTERED_PARAMETER_NUMBER_LSB", 98), ("NON_REGISTERED_PARAMETER_NUMBER_MSB", 99),
+   ("REGISTERED_PARAMETER_NUMBER_LSB", 100), ("REGISTERED_PARAMETER_NUMBER_MSB", 101)]
+
+/-- what a constant must be by its NAME: the standard number when the properties name one, `X + 32` for an `X_LSB`
+    whose `X` exists (C16 `lsb_constants`), otherwise whatever the source says -/
+def specCnConst (i : Nat) : Option Obs := do
+  let name ← Gen.controllerNumberNames[i]?
+  let v ← Gen.controllerNumberValues[i]?
+  match standardCn.lookup name with
+  | some n => some [(n : Int)]
+  | none =>
+    if name.endsWith "_LSB" then
+      let base := (name.dropEnd 4).toString
+      match Gen.controllerNumberNames.idxOf? base with
+      | some j => (Gen.controllerNumberValues[j]?).map (fun b => [((b + 32 : Nat) : Int)])
+      | none => some [(v : Int)]
+    else some [(v : Int)]
+
 end Midi.Driver
